@@ -37,6 +37,7 @@ var c03Alphabet = []string{
 	"X:finish-naming-keyless-entity", "X:finish-naming-shortkey-entity",
 	"X:start-replay-L", "L:finish-genuine-begin", "L:finish-genuine-end",
 	"L:finish-signed-by-L-naming-case-variant", "L:finish-signed-by-L-naming-prefix-of-L",
+	"X:finish-reflecting-accessory-signature", "X:start-with-accessory-key", "X:finish-echoing-start-response",
 }
 
 func swapCase(s string) string {
@@ -274,6 +275,53 @@ func (r *c03Run) step(ev string) bool {
 			x = pending
 		}
 		m, err = post(refctl.VerifyM3Sealed(x.EncKey, x.M3Sub(name, idL.Priv)))
+	case "finish-reflecting-accessory-signature":
+		// X cannot sign; it sends the accessory's own identifier and signature (taken from the start response it
+		// decrypted) back as its finish
+		isFinish = true
+		name, sig := r.b.AccID, pat(64, 9)
+		if ctxv.AccSig != nil {
+			name, sig = ctxv.AccID, ctxv.AccSig
+		}
+		m, err = post(refctl.VerifyM3Sealed(ctxv.EncKey, refctl.TLVEncode(refctl.T(refctl.TagIdentifier, []byte(name)), refctl.T(refctl.TagSignature, sig))))
+	case "start-with-accessory-key":
+		// X starts an exchange with the accessory's own ephemeral public key as its key (learnt from an earlier
+		// start response on this connection); a rejected start is retried once, as a controller would
+		pub := pat(32, 55)
+		if cn.last != nil && len(cn.last.AccEph) == 32 {
+			pub = cn.last.AccEph
+		}
+		for attempt := 0; attempt < 2; attempt++ {
+			m, err = post(refctl.VerifyM1(pub))
+			if _, isErr, _ := c03Class(m, err); !isErr || err != nil {
+				break
+			}
+		}
+		cls, isErr, _ := c03Class(m, err)
+		r.c.Class(op + "→" + cls)
+		if !isErr {
+			z := refctl.NewVerify(refctl.Seed32("acc-key"))
+			t, _ := refctl.TLVMap(m.Body)
+			z.EphPub = pub
+			z.AccEph = t[refctl.TagPublicKey]
+			z.Shared = refctl.Seed32("unknown-to-X")
+			z.EncKey = refctl.Seed32("unknown-to-X-enc")
+			z.RawM2 = t[refctl.TagEncrypted] // the sealed part of the start response, which X cannot open
+			cn.prev, cn.last, cn.pending = cn.last, z, z
+		}
+		return true
+	case "finish-echoing-start-response":
+		// the sealed part of the most recent start response, sent back unchanged as the finish
+		isFinish = true
+		blob := pat(80, 3)
+		if cn.last != nil && cn.last.RawM2 != nil && len(cn.last.RawM2) < 200 {
+			blob = cn.last.RawM2
+		} else if cn.last != nil && cn.last.RawM2 != nil {
+			if t, perr := refctl.TLVMap(cn.last.RawM2); perr == nil && t[refctl.TagEncrypted] != nil {
+				blob = t[refctl.TagEncrypted]
+			}
+		}
+		m, err = post(refctl.TLVEncode(refctl.T(refctl.TagState, []byte{3}), refctl.T(refctl.TagEncrypted, blob)))
 	case "finish-unknown-name":
 		isFinish = true
 		m, err = post(refctl.VerifyM3Sealed(ctxv.EncKey, ctxv.M3Sub("nobody", idX.Priv)))
@@ -495,7 +543,7 @@ func c03Run1(c *fw.Ctx) {
 		n = 16 // quick: the first 16 symbols (simplest first) …
 	}
 	// … plus the two degenerate-entity symbols
-	alpha := append(append([]string{}, c03Alphabet[:n]...), "X:finish-naming-keyless-entity", "X:finish-naming-shortkey-entity", "L:finish-genuine-begin", "L:finish-genuine-end", "L:finish-signed-by-L-naming-case-variant")
+	alpha := append(append([]string{}, c03Alphabet[:n]...), "X:finish-naming-keyless-entity", "X:finish-naming-shortkey-entity", "L:finish-genuine-begin", "L:finish-genuine-end", "L:finish-signed-by-L-naming-case-variant", "X:finish-reflecting-accessory-signature", "X:start-with-accessory-key", "X:finish-echoing-start-response")
 	if c.Thorough() {
 		// thorough: the quick alphabet to depth 4, and the full alphabet to depth 3
 		full := c03Alphabet
@@ -552,7 +600,7 @@ func init() {
 	fw.Register(&fw.Check{
 		ID:    "C03",
 		Level: "model_checking",
-		Rule:  "every history of length ≤3 (quick) / ≤4 (thorough) over 21 symbols, in thorough also every history of length ≤3 over all 29 symbols, of the pair-verify alphabet on an adversary connection X and a legitimate connection L (start valid / 31 / 33 / 0-byte key / all-zero point; finish genuine, signed by X naming L, unknown name, naming the accessory, sealed under zero / wrong key, 0 and 15 byte payloads, tag flipped, L's captured finish replayed, L's signature over reordered or stale material, naming a stored entity that has no key / a 5-byte key, signed by L's own key but naming the case-swapped spelling / a prefix of its name; unknown state; unknown method; reopen; L's start replayed by X; L's genuine finish split with Expect: 100-continue so that its handler overlaps with later events) against the real transport over TCP; each node is replayed on a fresh system; after every event the response is compared with the reference model (verified ⇔ genuine finish by L directly after an accepted start, computed by the independent controller), and at the end of every history each connection is probed destructively: an unverified one must answer plaintext, refuse protected reads and not serve ciphertext under its own exchange keys; a verified one must serve encrypted requests. The same alphabet (all 29 symbols) is also explored to depth 2 (thorough 3) from two non-initial states: L already verified on its connection, and L verified once and then removed by an administrator through /pairings (its genuine finish must then be refused). Plus interleavings of the real pair-verify / pair-setup handlers of two connections under a cooperative scheduler (scheduling points = every log statement of the library, every mutex Lock in hap and crypto, the arrival of each request; preemption bound 2 quick / 3 thorough): a genuine and a forged pair-verify naming the same controller, a pair-verify next to another connection's key exchange — exactly the genuine one ends verified. states = tree nodes, distinct_nontrivial = distinct (event → response class) pairs",
+		Rule:  "every history of length ≤3 (quick) / ≤4 (thorough) over 24 symbols, in thorough also every history of length ≤3 over all 32 symbols, of the pair-verify alphabet on an adversary connection X and a legitimate connection L (start valid / 31 / 33 / 0-byte key / all-zero point; finish genuine, signed by X naming L, unknown name, naming the accessory, sealed under zero / wrong key, 0 and 15 byte payloads, tag flipped, L's captured finish replayed, L's signature over reordered or stale material, naming a stored entity that has no key / a 5-byte key, signed by L's own key but naming the case-swapped spelling / a prefix of its name, the accessory's own identifier and signature reflected, a start with the accessory's own ephemeral key followed by a finish that echoes the sealed part of the start response; unknown state; unknown method; reopen; L's start replayed by X; L's genuine finish split with Expect: 100-continue so that its handler overlaps with later events) against the real transport over TCP; each node is replayed on a fresh system; after every event the response is compared with the reference model (verified ⇔ genuine finish by L directly after an accepted start, computed by the independent controller), and at the end of every history each connection is probed destructively: an unverified one must answer plaintext, refuse protected reads and not serve ciphertext under its own exchange keys; a verified one must serve encrypted requests. The same alphabet (all 32 symbols) is also explored to depth 2 (thorough 3) from two non-initial states: L already verified on its connection, and L verified once and then removed by an administrator through /pairings (its genuine finish must then be refused). Plus interleavings of the real pair-verify / pair-setup handlers of two connections under a cooperative scheduler (scheduling points = every log statement of the library, every mutex Lock in hap and crypto, the arrival of each request; preemption bound 2 quick / 3 thorough): a genuine and a forged pair-verify naming the same controller, a pair-verify next to another connection's key exchange — exactly the genuine one ends verified. states = tree nodes, distinct_nontrivial = distinct (event → response class) pairs",
 		Run:   c03Run1,
 		Replay: func(c *fw.Ctx, raw json.RawMessage) {
 			var pc pschedCase
